@@ -158,6 +158,9 @@ Proof. vm_compute. repeat split. Qed.
 Lemma get_result_history_dependent_l :
   let ok := ORun (ex_api 1) true [] (sched ex_plan [] 7) in
   let bad := ORun (ex_api 2) true [0] (sched ex_plan [0] 7) in
+  let str := OStream (ex_api 3) true [] (sched ex_plan [] 7) None in
   snd (exec true (after_s (prepare ex_plan None) [ok; bad]) OGet) = {| r_status := ROk; r_items := [1]; r_api := ex_api 1 |} /\
-  snd (exec true (after_s (prepare ex_plan None) [bad]) OGet) = {| r_status := RNoRunner; r_items := []; r_api := None |}.
-Proof. vm_compute. split; reflexivity. Qed.
+  snd (exec true (after_s (prepare ex_plan None) [bad]) OGet) = {| r_status := RNoRunner; r_items := []; r_api := None |} /\
+  (* after a drained stream the stored orchestrator's collection is empty: get_result raises "No results found" *)
+  snd (exec true (after_s (prepare ex_plan None) [ok; str]) OGet) = {| r_status := RRaised; r_items := []; r_api := ex_api 3 |}.
+Proof. vm_compute. repeat split; reflexivity. Qed.
